@@ -244,3 +244,13 @@ def swap_restored(O, R):
 def o_variable_arm(O):
     from . import C10
     C10.variable_arm(O, rep())
+
+
+@obligation("C04/reads-recorded", desc="parser: an identifier that is not a variable in scope is recorded as an output read "
+            "(so that binding and construction can demand the output); a let's own name is not yet in scope inside its "
+            "initialiser")
+def reads_recorded(O):
+    from . import C11
+    W = dri.WithRep(O, rep())
+    C11.SCOPE_OBS["let"](W)
+    C11.identifier_read(W)
